@@ -320,7 +320,7 @@ fn packagings(v: &IxView, idx: usize, salt: u64, cov: &mut Coverage, out: &mut V
         }
     }
     // 6. an array of another pool must be rejected
-    if let Some(src) = arrays.iter().find(|k| v.pre.exists(k)) {
+    if let Some(src) = arrays.iter().find(|k| v.pre.data(k).map(|d| decode::tick_array(d).is_ok()).unwrap_or(false)) {
         let mut f0 = v.pre.clone();
         let a = f0.get(src).unwrap().clone();
         let mut d = (*a.data).clone();
